@@ -5,16 +5,16 @@ import "time"
 func init() {
 	registry = append(registry, property{id: "C05", parts: []part{
 		{name: "hostile", pkg: "./c05", run: "^TestHostileText$",
-			shards: [2]int{6, 16}, checks: [2]int{800, 40000}, timeout: [2]time.Duration{12 * min, 40 * min}},
+			shards: [2]int{6, 16}, checks: [2]int{800, 40000}, timeout: [2]time.Duration{12 * min, 80 * min}},
 		{name: "expr", pkg: "./c05", run: "^TestExprNesting$",
-			shards: [2]int{4, 16}, checks: [2]int{3000, 150000}, timeout: [2]time.Duration{12 * min, 40 * min}},
+			shards: [2]int{4, 16}, checks: [2]int{3000, 150000}, timeout: [2]time.Duration{12 * min, 80 * min}},
 		{name: "names", pkg: "./c05", run: "^TestHostileNames$",
-			shards: [2]int{2, 8}, checks: [2]int{1500, 50000}, timeout: [2]time.Duration{12 * min, 40 * min}},
+			shards: [2]int{2, 8}, checks: [2]int{1500, 50000}, timeout: [2]time.Duration{12 * min, 80 * min}},
 		{name: "scopes", pkg: "./c05", run: "^TestScopes$",
-			shards: [2]int{6, 16}, checks: [2]int{150, 6000}, timeout: [2]time.Duration{12 * min, 40 * min}},
+			shards: [2]int{6, 16}, checks: [2]int{150, 6000}, timeout: [2]time.Duration{12 * min, 80 * min}},
 		{name: "flags", pkg: "./c05", run: "^TestFlags$",
-			shards: [2]int{6, 16}, checks: [2]int{60, 3000}, timeout: [2]time.Duration{12 * min, 40 * min}},
+			shards: [2]int{6, 16}, checks: [2]int{60, 3000}, timeout: [2]time.Duration{12 * min, 80 * min}},
 		{name: "fuzz-hostile", pkg: "./c05", fuzz: "FuzzHostileText",
-			shards: [2]int{0, 1}, fuzztime: [2]time.Duration{0, 6 * min}, timeout: [2]time.Duration{12 * min, 30 * min}},
+			shards: [2]int{0, 1}, fuzztime: [2]time.Duration{0, 6 * min}, timeout: [2]time.Duration{12 * min, 60 * min}},
 	}})
 }
